@@ -190,7 +190,7 @@ Section Law.
   Variable unquote : bytes -> option bytes.
 
   (* on the canonical representative line() prints the pairs in their order (either variant) *)
-  Lemma line_print_v fx m : keys_sorted m = true -> line_v fx quote m = print_tags_v fx quote m.
+  Lemma line_print_v fx nl m : keys_sorted m = true -> line_v fx nl quote m = print_tags_v fx nl quote m.
   Proof.
     intros H. apply keys_sorted_SS in H. unfold line_v, line_ord_v, print_tags_v.
     rewrite (sort_keys_sorted_id _ (klt_keys_ble m H)).
@@ -347,6 +347,7 @@ Section Law.
     v <> [] /\ trimmed v = true /\ starts_quoted v = false /\ (last = true -> last_is RBR v = false).
   Proof.
     unfold tag_needs_quote, tag_needs_quote_v, code_quote_edges. cbn [andb]. intros H.
+    apply orb_false_iff in H as [H _].
     apply orb_false_iff in H as [H1 H2]. apply orb_false_iff in H1 as [H1 _]. apply orb_false_iff in H1 as [H1 _].
     apply orb_false_iff in H2 as [H2 H6]. apply orb_false_iff in H2 as [H2 H5]. apply orb_false_iff in H2 as [H3 H4].
     repeat split.
@@ -413,9 +414,9 @@ Section Law.
   Qed.
 
   (* ---------- the rendered pairs of a line ---------- *)
-  Lemma render_snoc_v fx l k v :
-    render_v fx quote (l ++ [(k, v)]) =
-    map (fun kv => (fst kv, tag_val_v fx quote false (snd kv))) l ++ [(k, tag_val_v fx quote true v)].
+  Lemma render_snoc_v fx nl l k v :
+    render_v fx nl quote (l ++ [(k, v)]) =
+    map (fun kv => (fst kv, tag_val_v fx nl quote false (snd kv))) l ++ [(k, tag_val_v fx nl quote true v)].
   Proof.
     induction l as [|[a b] l IH]; [reflexivity|].
     cbn [app render_v map fst snd]. rewrite IH. destruct l; reflexivity.
